@@ -684,13 +684,16 @@ func viewsCase(in map[string]any) map[string]any {
 	var addDeps func(f protoreflect.FileDescriptor)
 	seen := map[string]bool{}
 	addDeps = func(f protoreflect.FileDescriptor) {
-		for i := 0; i < f.Imports().Len(); i++ {
+		for i := 0; i < f.Imports().Len() && regErr == nil; i++ {
 			d := f.Imports().Get(i).FileDescriptor
 			if seen[d.Path()] {
 				continue
 			}
 			seen[d.Path()] = true
 			addDeps(d)
+			if regErr != nil {
+				return
+			}
 			rd, err := protodesc.NewFile(protodesc.ToFileDescriptorProto(d), deps)
 			if err != nil {
 				regErr = fmt.Errorf("dependency %s: %w", d.Path(), err)
